@@ -14,7 +14,8 @@ MANIFEST = dict(
          "properties) from document.New() and from foreign packages with arbitrary id schemes, and TLC must find the "
          "counterexample for the pinned tree's count+2 allocation (non-vacuity). TLC then enumerates every order of the "
          "relationship-creating calls (pictures in body / table cell / without element / template placeholders, six header/footer "
-         "constructors x three kinds, list items, foot/endnotes, SetFootnoteConfig, document properties, styles) with Save, ToBytes, "
+         "constructors x three kinds, list items, foot/endnotes, SetFootnoteConfig, document properties, styles) and of the calls "
+         "that take notes away again (RemoveFootnote / RemoveEndnote of one note or of all of them) with Save, ToBytes, "
          "Reopen (memory and file) and the three document-template rendering entry points, from a new document and from "
          "synthesised packages (dense, sparse, non-rId ids, styles relationship last / in the middle / absent, ids sitting on "
          "count+2, header with its own relationship part, external targets, absolute targets); each behaviour is executed on the "
@@ -50,7 +51,8 @@ ASSUMPTIONS = [
 
 HF6 = ["AddHeader", "AddFooter", "AddHeaderWithPageNumber", "AddFooterWithPageNumber", "AddFormattedHeader", "AddFormattedFooter"]
 CREATE = ["AddImage", "AddListItem", "AddFootnote", "AddEndnote", "SetFootnoteConfig", "SetProps"]
-OTHER = ["AddStyle", "AddParagraph", "AddTable", "Placeholder", "Render", "Save", "ToBytes", "Reopen"]
+REMOVE = ["RemoveFootnote", "RemoveEndnote"]
+OTHER = REMOVE + ["AddStyle", "AddParagraph", "AddTable", "Placeholder", "Render", "Save", "ToBytes", "Reopen"]
 ALLOPS = HF6 + CREATE + OTHER
 ALLVIA = {"data", "file", "item", "bullet", "numbered", "multi", "text", "run", "props", "title", "mem", "doc", "legacy", "renderer"}
 VIA1 = {"data", "item", "text", "props", "mem", "doc"}
@@ -82,6 +84,8 @@ def plans(seed, q):
         ("foreign", dict(ops=fcore, depth=2 if q else 3, kinds=("default",), where=("body",),
                          new=False, schemes=SCHEMES if q else [x for i, x in enumerate(SCHEMES) if i % 3 != seed % 3], contents=["full"])),
     ]
+    # notes added and taken away again (one / all of them), in every order, with Reopen in between
+    P += [("notes", dict(ops=["AddFootnote", "AddEndnote", "Reopen"] + REMOVE, depth=3 if q else 5, kinds=k2[:1], where=("body",)))]
     if q:
         P += [("foreign1", dict(ops=ALLOPS, depth=1, via=VIA1 | {"legacy"}, kinds=k2[:1], new=False, schemes=SCHEMES,
                                 contents=["min", "full", ["pics", "hf2", "notes", "mix", "hf"][seed % 5]])),
